@@ -2,8 +2,8 @@ import Revm.Proofs.EvmLinkInterp7
 /-! LINK, the interpreter side of panic-freedom, part 8: **`Evm.transact` never hits an interpreter fault, a fault of an
 outcome insertion or a failing `free_context`**: on a well-formed world at journal depth 0 whose code store and
 precompile oracle hold Rust `Bytes`, for an environment with calldata within `isize::MAX` and a gas limit below
-`u64::MAX`, for every fork and fuel, the answer is a result on a well-formed world, a soft failure, the EOFCREATE
-action (legacy-only model) or "out of fuel". -/
+`u64::MAX`, for every fork and fuel, the answer is a result on a well-formed world, a soft failure, or "out of fuel"
+(legacy code never hands out the EOFCREATE action: part 13). -/
 set_option linter.unusedSimpArgs false
 set_option linter.unusedVariables false
 namespace Revm.Proofs.EvmLink
